@@ -142,6 +142,13 @@ NoEnvs == {}
 C12Envs == UNION {{Env(c, s, l, Par1, 2) : l \in SilentLoss(s)} : c \in Chains5, s \in {Single(<<"e", "r">>, 3), M1, M3, Paged(3, 2, 1, FALSE)}}
 C12Plans == {NextN(a) \o t : a \in 0..4, t \in {<<"finish", "finish">>, <<"drain", "finish", "next">>, <<"next", "state", "finish">>}}
 
+\* ---- C04 instances: the server closes the connection at every position of one- to three-page scripts, under every chain
+\* (stream calls) and under search()
+C04Scripts == {Single(<<"e", "r">>, 3), Single(<<"r", "i", "e">>, 1), M1, Paged(3, 2, 1, FALSE)}
+C04Envs == UNION {{Env(c, s, l, Par1, 2) : l \in AllLoss(s) \ {NoLoss}} : c \in Chains5, s \in C04Scripts}
+C04SearchEnvs == UNION {{Env(<<>>, s, l, Par1, 0) : l \in AllLoss(s) \ {NoLoss}} : s \in C04Scripts \ {Paged(3, 2, 1, FALSE)}}
+C04Plans == {NextN(a) \o t : a \in 0..4, t \in {<<"finish", "finish">>, <<"drain", "finish", "next">>}}
+
 NoPlans == {}
 AlphaNF == {"next", "finish"}
 AlphaNFS == {"next", "finish", "state"}
